@@ -460,3 +460,84 @@ Print Assumptions C09_guard_needed.
 Print Assumptions C09_span_hypotheses_satisfiable.
 Print Assumptions C09_two_methods_first_garbage.
 Print Assumptions C09_missing_end_example.
+
+(* ---------- the other declarations' DIAGNOSTICS in the response (C16_response_local composed with C09_local) ----------
+   Replace the body of one method: both files parse, the two trees differ in that one method node only, and the assembled
+   diagnostics response (Model/Report.v) of either tree is, up to the order of items, the response of the file WITHOUT the
+   method plus `contrib` of the method node -- a function of that node alone.  So the analysers' items about every other
+   declaration are the same multiset before and after, whatever the two bodies are. *)
+From GoldV Require Import Report ReportProofs.
+From Coq Require Import Permutation.
+
+Theorem C09_response_local :
+  forall memo fuel us isf hdr h dh body body' endtok post,
+    let g := gram fuel in
+    Forall (unit_ok g memo) us ->
+    method_header g isf hdr h dh -> has_method_body (h_mods h) = true ->
+    no_term (terms_of isf) body = true -> extends_header body = false ->
+    no_term (terms_of isf) body' = true -> extends_header body' = false ->
+    is_term (terms_of isf) endtok = true ->
+    let file := units_toks us ++ (hdr ++ body ++ [endtok]) ++ post in
+    let file' := units_toks us ++ (hdr ++ body' ++ [endtok]) ++ post in
+    (length file < fuel)%nat -> (length file' < fuel)%nat ->
+    exists Npost m m',
+      fst (parse_gold_with memo fuel file) = Ok [] (mk_root (units_nodes us ++ m :: Npost)) /\
+      fst (parse_gold_with memo fuel file') = Ok [] (mk_root (units_nodes us ++ m' :: Npost)) /\
+      forall pd pd',
+        Permutation (report (mk_root (units_nodes us ++ m :: Npost)) pd)
+                    (report (mk_root (units_nodes us ++ Npost)) pd ++ contrib m) /\
+        Permutation (report (mk_root (units_nodes us ++ m' :: Npost)) pd')
+                    (report (mk_root (units_nodes us ++ Npost)) pd' ++ contrib m').
+Proof.
+  intros memo fuel us isf hdr h dh body body' endtok post g Hu Hh Hb Hn Hx Hn' Hx' He file file' Hl Hl'.
+  destruct (C09_local memo fuel us isf hdr h dh body body' endtok post Hu Hh Hb Hn Hx Hn' Hx' He Hl Hl')
+    as (Npost & Dpost & cf & cf' & E1 & E2 & _).
+  exists Npost, (span_node h (iso_node g memo body) endtok), (span_node h (iso_node g memo body') endtok).
+  fold file in E1. fold file' in E2. rewrite E1, E2. split; [reflexivity|]. split; [reflexivity|].
+  intros pd pd'. unfold mk_root. split; apply report_local.
+Qed.
+
+Print Assumptions C09_response_local.
+
+(* ---------- the other declarations' OUTLINE entries (C12 composed with C09_local) ----------
+   the outline of either file is the entries of the declarations before the method, the method's own entry, the entries of
+   the declarations after it -- under the first header of the OTHER declarations; only the method's own entry can differ *)
+From GoldV Require Import Outline OutlineProofs.
+
+Lemma span_node_not_header h b e : is_header_node (span_node h b e) = false.
+Proof. unfold span_node, method_node. destruct (h_ret h); reflexivity. Qed.
+
+Theorem C09_outline_local :
+  forall memo fuel us isf hdr h dh body body' endtok post,
+    let g := gram fuel in
+    Forall (unit_ok g memo) us ->
+    method_header g isf hdr h dh -> has_method_body (h_mods h) = true ->
+    no_term (terms_of isf) body = true -> extends_header body = false ->
+    no_term (terms_of isf) body' = true -> extends_header body' = false ->
+    is_term (terms_of isf) endtok = true ->
+    let file := units_toks us ++ (hdr ++ body ++ [endtok]) ++ post in
+    let file' := units_toks us ++ (hdr ++ body' ++ [endtok]) ++ post in
+    (length file < fuel)%nat -> (length file' < fuel)%nat ->
+    exists Npost m m',
+      fst (parse_gold_with memo fuel file) = Ok [] (mk_root (units_nodes us ++ m :: Npost)) /\
+      fst (parse_gold_with memo fuel file') = Ok [] (mk_root (units_nodes us ++ m' :: Npost)) /\
+      outline (mk_root (units_nodes us ++ m :: Npost)) =
+        wrap (header (units_nodes us ++ Npost))
+             (filter_map entry (units_nodes us) ++ olist (entry m) ++ filter_map entry Npost) /\
+      outline (mk_root (units_nodes us ++ m' :: Npost)) =
+        wrap (header (units_nodes us ++ Npost))
+             (filter_map entry (units_nodes us) ++ olist (entry m') ++ filter_map entry Npost).
+Proof.
+  intros memo fuel us isf hdr h dh body body' endtok post g Hu Hh Hb Hn Hx Hn' Hx' He file file' Hl Hl'.
+  destruct (C09_local memo fuel us isf hdr h dh body body' endtok post Hu Hh Hb Hn Hx Hn' Hx' He Hl Hl')
+    as (Npost & Dpost & cf & cf' & E1 & E2 & _).
+  exists Npost, (span_node h (iso_node g memo body) endtok), (span_node h (iso_node g memo body') endtok).
+  fold file in E1. fold file' in E2. rewrite E1, E2. split; [reflexivity|]. split; [reflexivity|].
+  split.
+  - exact (proj1 (proj2 (outline_insert (mk_root (units_nodes us ++ Npost)) (units_nodes us) Npost _ eq_refl
+                                        (span_node_not_header h _ endtok)))).
+  - exact (proj1 (proj2 (outline_insert (mk_root (units_nodes us ++ Npost)) (units_nodes us) Npost _ eq_refl
+                                        (span_node_not_header h _ endtok)))).
+Qed.
+
+Print Assumptions C09_outline_local.
